@@ -124,6 +124,28 @@ func (ex *Exec) query(st *State, c *Term) (bool, Model) {
 			return true, e.m
 		}
 	}
+	if f, m, ok := ex.jointDecide(st, conj); ok {
+		ex.jointDecisions++
+		r := Unsat
+		if f {
+			r = Sat
+		}
+		if auditDom {
+			if rs, _ := ex.solver.Check(conj, false); rs != Unknown && rs != r {
+				ex.inconclusive("AUDIT: joint-domain decision disagrees with the solver at " + ex.where(st))
+			}
+		}
+		if len(ex.qcache) < 2000000 {
+			ex.qcache[key] = qres{r, m}
+		}
+		if !f {
+			return false, nil
+		}
+		if st.modelOK {
+			return true, overlay(st.model, m)
+		}
+		return true, m
+	}
 	ex.queriesBr++
 	r, m := ex.solver.Check(conj, true)
 	if r != Unknown && len(ex.qcache) < 2000000 {
@@ -170,4 +192,88 @@ func (ex *Exec) inconclusive(why string) {
 	if len(ex.incon) < 50 {
 		ex.incon = append(ex.incon, why)
 	}
+}
+
+// jointDecide decides a sliced query (conjuncts incl. the condition) exactly by
+// enumeration when it mentions at most three input variables, each with an explicit
+// small domain (8-bit inputs; wider ones bounded by range constraints), and the product
+// of the domain sizes is at most 4096: every combination is evaluated on all conjuncts.
+// This is what keeps lookups in large constant tables (charset decoders: ite chains over
+// a thousand cells) away from the bit-blaster.  Used for branch feasibility only;
+// assertions always go to the solver.  GOSYM_AUDIT=1 re-checks each answer with the solver.
+func (ex *Exec) jointDecide(st *State, conj []*Term) (bool, Model, bool) {
+	seen := map[int32]bool{}
+	var vars []int32
+	for _, t := range conj {
+		for _, v := range t.Vars() {
+			if v < 0 {
+				return false, nil, false
+			}
+			if !seen[v] {
+				seen[v] = true
+				vars = append(vars, v)
+			}
+		}
+	}
+	if len(vars) == 0 || len(vars) > 3 {
+		return false, nil, false
+	}
+	doms := make([][]uint64, len(vars))
+	total := 1
+	for k, id := range vars {
+		vt := varTerm(id)
+		if vt == nil || vt.sort.K != KBV {
+			return false, nil, false
+		}
+		if w := st.wide[id]; (w == nil || w.vals == nil) && vt.sort.Bits != 8 {
+			return false, nil, false
+		}
+		doms[k] = st.domValues(id)
+		total *= len(doms[k])
+		if total > 4096 {
+			return false, nil, false
+		}
+	}
+	if total == 0 {
+		return false, nil, true
+	}
+	m := Model{}
+	bad := false
+	var rec func(k int) bool
+	rec = func(k int) bool {
+		if k == len(vars) {
+			for _, t := range conj {
+				v, ok := evalTerm(t, m)
+				if !ok {
+					bad = true
+					return false
+				}
+				if v == 0 {
+					return false
+				}
+			}
+			return true
+		}
+		for _, v := range doms[k] {
+			m[vars[k]] = v
+			if rec(k + 1) {
+				return true
+			}
+			if bad {
+				return false
+			}
+		}
+		return false
+	}
+	if rec(0) {
+		out := Model{}
+		for _, id := range vars {
+			out[id] = m[id]
+		}
+		return true, out, true
+	}
+	if bad {
+		return false, nil, false
+	}
+	return false, nil, true
 }
